@@ -618,7 +618,7 @@ class Generator(TreeListener):
         if len(f.values) > 0:
             indexed_symbols = list(f.indexed_symbols.keys())
             args = [f.index_variable] + indexed_symbols
-            expr = ca.vcat([ca.vec(self.get_mx(e.right)) for e in tree.statements])
+            expr = ca.vcat([ca.vec(ca.MX(self.get_mx(e.right))) for e in tree.statements])
             free_vars = ca.symvar(expr)
 
             arg_names = [arg.name() for arg in args]
